@@ -3,7 +3,7 @@
 //   sparse nv reduced upper  par[nv] simple[nv]           raw mj_makeDofDofSparse on a forest
 //   factor nv par[nv] simple[nv] nC vals[nC] x[nv]        mj_factorI / mj_solveLD / mulM / fullM on raw values
 //   model seed feat nbody flags                           compiled random tree (mjgen.h), random state
-//        flags: 1 = give every tendon an armature, 2 = add actuator armature (not used)
+//        flags: 1 = give every tendon an armature, 2 = add simple bodies (free sphere / aligned sliders)
 // stdout: one line per request, groups separated by '|', ints decimal, doubles %a
 #include "mjgen.h"
 #include "engine/engine_io.h"
@@ -76,6 +76,21 @@ int main(void) {
       mjg_rng R = { seed ^ 0xABCDEF }; mjg_rng* r = &R;
       if (flags & 1) {
         for (mjsElement* e = mjs_firstElement(s, mjOBJ_TENDON); e; e = mjs_nextElement(s, e)) mjs_asTendon(e)->armature = mjg_range(r, 0.01, 0.2);
+      }
+      if (flags & 2) {
+        // simple bodies (diagonal inertia rows): world children whose inertial frame is the body frame
+        int nextra = 1 + mjg_int(r, 2);
+        for (int k = 0; k < nextra; k++) {
+          mjsBody* body = mjs_addBody(mjs_findBody(s, "world"), NULL);
+          body->pos[0] = 2 + k; body->pos[2] = 1;
+          mjsGeom* g = mjs_addGeom(body, NULL); g->type = mjGEOM_SPHERE; g->size[0] = mjg_range(r, 0.05, 0.2);
+          g->contype = 0; g->conaffinity = 0;
+          if (mjg_chance(r, 0.5)) { mjs_addJoint(body, NULL)->type = mjJNT_FREE; }
+          else {
+            int ns = 1 + mjg_int(r, 3);
+            for (int a = 0; a < ns; a++) { mjsJoint* j = mjs_addJoint(body, NULL); j->type = mjJNT_SLIDE; j->axis[0] = j->axis[1] = j->axis[2] = 0; j->axis[a] = 1; j->armature = mjg_range(r, 0, 0.1); }
+          }
+        }
       }
       mjModel* m = NULL; mjData* d = NULL;
       if (MJG_TRY) {
